@@ -5,6 +5,16 @@ from wikitextprocessor import Wtp
 from wikitextprocessor.common import MAGIC_FIRST, _nowiki_map, nowiki_quote
 
 ctx = Wtp(quiet=True, quiet_output=True)
+
+
+def reset_begline(c):
+    """representation invariant at a token boundary outside argument re-parsing: beginning-of-line syntax enabled"""
+    c.begline_enabled = True
+    try:
+        c.begline_disable_counter = 0
+    except AttributeError:  # the counter slot may have been refactored away
+        pass
+
 MARKUP = "=<>*#:!|[]{}\"'_"  # the 15 documented markup characters
 ALPHA = MARKUP + "a\n;"
 _T = os.environ.get("VERIF_TIER", "quick")
@@ -133,8 +143,7 @@ def magic_n_step(c: str, bol: bool, in_section: bool) -> bool:
     ctx.pre_parse = False
     ctx.linenum = 3
     ctx.suppress_special = False
-    ctx.begline_enabled = True
-    ctx.begline_disable_counter = 0
+    reset_begline(ctx)
     if in_section:
         n = _parser_push(ctx, NodeKind.LEVEL2)
         n.largs = [["h"]]
@@ -206,3 +215,34 @@ def replay_comment_removed(a, x, b):
     w.start_page("T")
     e2 = w.expand(d2)
     return ("expand(" + repr(d1) + ") vs expand(" + repr(d2) + ")", e1 != e2 and "<!--" not in d2, f"with the comment: {e1!r}; with the comment deleted: {e2!r}")
+
+
+# ---------------------------------------------------------------- finalisation reaches a fixed point through nested unexpanded constructs
+def finalize_depth(c: str, depth: int) -> bool:
+    """cookie 0 is the nowiki body; cookie i (1..depth) is an unexpanded, nowiki-escaped construct (argument reference,
+    template, link, external link in turn) whose only argument is cookie i-1.  Finalising cookie `depth` must leave no
+    placeholder character and must contain the quoted body."""
+    ctx.start_page("T")
+    kinds = ["A", "T", "L", "E"]
+    cookies = [("N", (c,), True)]
+    for i in range(1, depth + 1):
+        cookies.append((kinds[(i - 1) % 4], (chr(MAGIC_FIRST + i - 1),), True))
+    ctx.cookies = cookies
+    out = ctx._finalize_expand("x" + chr(MAGIC_FIRST + depth) + "y")
+    for i in range(depth + 1):
+        if chr(MAGIC_FIRST + i) in out:
+            return False
+    return (nowiki_quote(c) if c != "" else "<nowiki/>") in out
+
+
+def replay_finalize_depth(c, depth):
+    w = Wtp(quiet=True, quiet_output=True)
+    w.start_page("T")
+    inner = "<nowiki>" + c + "</nowiki>"
+    wraps = ["{{{<nowiki/>1|%s}}}", "{{<nowiki/>t|%s}}", "[[<nowiki/>x|%s]]", "{{<nowiki/>u|%s}}"]
+    doc = inner
+    for i in range(depth):
+        doc = wraps[i % 4] % doc
+    out = w.expand(doc)
+    bad = any(ord(ch) >= 0x100000 for ch in out) or ("".join(_nowiki_map.get(ch, ch) for ch in c) not in out and c != "")
+    return ("expand(" + repr(doc) + ")", bad, f"result {out!r}: placeholder character left / nowiki body not recoverable")
